@@ -70,6 +70,10 @@ type ArrNode struct {
 
 var ufSeq int
 
+// ufReads records, per path, the index terms at which each input array was read
+// (the model of an array input is reported at exactly these positions).
+var ufReads map[string][]*Term
+
 func (in *Interp) baseArr(name string, ew int) *ArrNode {
 	in.fresh++
 	return &ArrNode{kind: 0, uf: fmt.Sprintf("%s_%d", name, in.fresh), ew: ew}
@@ -87,8 +91,17 @@ func (a *ArrNode) Copy(dstOff *Term, src *ArrNode, srcOff, n *Term) *ArrNode {
 func (a *ArrNode) Read(i *Term) *Term {
 	switch a.kind {
 	case 0:
+		if ufReads != nil {
+			ufReads[a.uf] = append(ufReads[a.uf], i)
+		}
 		return App(a.uf, a.ew, i)
 	case 1:
+		switch a.ew {
+		case 0:
+			return Bool(false)
+		case SortInt:
+			return IntC(0)
+		}
 		return BV(a.ew, 0)
 	case 2:
 		c := Eq(i, a.idx)
